@@ -284,6 +284,20 @@ func (e *evalCtx) ident(name string) sval {
 	} else if fc := e.t.g.ann.funcs[e.t.g.contractKey(e.fn)]; fc != nil && fc.declaresGhost(name) {
 		e.fail("ghost %q of the callee is not visible at a call site", name)
 	}
+	// inside a helper translated in place its own parameters (and their reassignments) come first
+	if e.locals && e.fn == e.t.fn {
+		for i := len(e.t.frames) - 1; i >= 0; i-- {
+			fr := e.t.frames[i]
+			for _, p := range fr.fn.Params {
+				if p.Name() == name {
+					if v, ok := e.localIn(name, fr.fn); ok && !e.inOld {
+						return v
+					}
+					return e.mk(e.t.val(p), p.Type())
+				}
+			}
+		}
+	}
 	// a reassigned parameter: outside old() the name means its current value
 	if e.locals && !e.inOld && e.fn == e.t.fn {
 		if v, ok := e.local(name); ok {
@@ -401,19 +415,31 @@ func (e *evalCtx) constVal(c *types.Const) sval {
 // local resolves a source-level variable name of the function being translated:
 // the most recent definition (DebugRef'd value or loop phi carrying that name)
 // that dominates the current point.
-func (e *evalCtx) local(name string) (sval, bool) {
+func (e *evalCtx) local(name string) (sval, bool) { return e.localIn(name, nil) }
+
+// localIn: like local, restricted to definitions inside function `only` when it is not nil.
+func (e *evalCtx) localIn(name string, only *ssa.Function) (sval, bool) {
 	t := e.t
 	depth := func(b *ssa.BasicBlock) int {
 		d := 0
 		for x := b; x != nil; x = x.Idom() {
 			d++
 		}
+		// definitions inside a helper translated in place shadow the caller's
+		for i, fr := range t.frames {
+			if b != nil && fr.fn == b.Parent() {
+				d += 10000 * (i + 1)
+			}
+		}
 		return d
 	}
 	var best ssa.Value
 	bd, bi := -1, -1
 	consider := func(v ssa.Value, blk *ssa.BasicBlock, idx int) {
-		if t.curBlock != nil && blk != nil && !blk.Dominates(t.curBlock) {
+		if only != nil && blk != nil && blk.Parent() != only {
+			return
+		}
+		if t.curBlock != nil && blk != nil && !t.nameVisible(blk) {
 			return
 		}
 		if _, def := t.vals[v]; !def {
@@ -447,7 +473,10 @@ func (e *evalCtx) local(name string) (sval, bool) {
 	}
 	if best == nil {
 		// address-taken local (Alloc with that comment)
-		for _, b := range t.fn.Blocks {
+		for _, b := range t.allBlocks() {
+			if only != nil && b.Parent() != only {
+				continue
+			}
 			for _, in := range b.Instrs {
 				if a, ok := in.(*ssa.Alloc); ok && a.Comment == name {
 					if _, def := t.vals[a]; def {
@@ -962,8 +991,8 @@ func (e *evalCtx) callExpr(x *sx) sval {
 			e.fail("sel(\"select#n\")")
 		}
 		found := false
-		for _, st := range t.sites {
-			if st == args[0].val {
+		for _, se := range t.allSites {
+			if se.label == args[0].val {
 				found = true
 			}
 		}
